@@ -526,7 +526,7 @@ def gen_duart(prefix, tier, seed, nq, nt, flavour):
                     ops += ['rb:%x' % (0x200007 + ch), 'rb:%x' % (0x20000f + ch)]
                 if r.random() < 0.12:
                     # commands from a per-character handler: re-arm the receiver / transmitter, reset the error status
-                    ops += ['wb:%x:%x' % (0x20000b + ch, r.choice([0x01, 0x05, 0x45, 0x04, 0x15]))]
+                    ops += ['wb:%x:%x' % (0x20000b + ch, r.choice([0x01, 0x05, 0x45, 0x04, 0x15, 0x02, 0x0a, 0x22, 0x08]))]
                 mult = r.choice([1, 1, 1, 10, 100, 1000]) if gran < 100000 else 1
                 dg.adv(ops, gran * mult)
                 ops += ['gi', 'ds']
@@ -713,6 +713,10 @@ def gen_c19(tier, seed):
         # the same, then keys typed through the C interface once the terminal is up (the stepping thread injects them
         # between its own steps), and afterwards the RS-232 transmit queue is drained by sequential polls
         st2 = list(st)
+        # a key injected while the firmware is still booting (between its two receiver resets): the firmware discards it;
+        # it must not come back later
+        at = 2 * r.choice([3400, 3900, 4300])
+        st2[at:at] = ['qb:5a']
         k0 = 5200 + 1600      # boot + 1.6 s of emulated time
         for k in range(5200, k0):
             st2 += ['t:%x' % ((k + 1) * 1000000), 'loop:3e8']
